@@ -643,6 +643,9 @@ func paramDecl(ps []Param) string {
 
 // Generate returns Go source for the harness + invariant functions of contract c.
 func (c *Contract) Generate() (string, error) {
+	if c.Lemma {
+		return "", nil // a lemma is an ordinary ghost function in the contract file, run as is
+	}
 	var b strings.Builder
 	c.HarnessName = fmt.Sprintf("verif_C_%d", c.ID)
 	var all []Param
